@@ -81,6 +81,42 @@ def h_fiber_export(ctx):
         ctx.prove(f'second export equals the first: {k}', eq(p1[k], p2[k]))
 
 
+def h_fiber_export_special(ctx, shape):
+    """Fiber export -> reload for a fibre with a per-frequency loss coefficient / with lumped losses (value-forked length): the
+    export can be loaded again and the reloaded fibre has the same loss over the spectrum / the same lumped losses"""
+    import numpy as np
+    eqpt = equipment()
+    km = ctx.choice('length_km', [20.0, 80.0, 123.456789])      # concrete: the reload goes through the JSON-level converter
+    params = {'length': km, 'length_units': 'km', 'att_in': 0, 'con_in': 0.5, 'con_out': 0.5}
+    if shape == 'per_frequency_loss':
+        params['loss_coef'] = {'value': [0.21, 0.2, 0.22], 'frequency': [191.0e12, 193.0e12, 196.5e12]}
+    else:
+        params['loss_coef'] = 0.2
+        params['lumped_losses'] = [{'position': 10, 'loss': 1.5}]
+    _, by = build_elements([{'uid': 'f', 'type': 'Fiber', 'type_variety': 'SSMF', 'params': params}], eqpt)
+    j1 = by['f'].to_json
+    try:
+        # reload the way load_network does: the saved document goes through yang_to_legacy (which also accepts legacy documents)
+        from gnpy.tools.convert_legacy_yang import yang_to_legacy
+        doc = yang_to_legacy({'elements': [deepcopy(j1)], 'connections': []})
+        _, by2 = build_elements(doc['elements'], eqpt)
+        err = None
+    except Exception as e:      # noqa
+        by2, err = None, f'{type(e).__name__}: {str(e)[:200]}'
+    ctx.prove(f'{shape}: the exported fibre can be loaded again', err is None, info=dict(shape=shape, error=err, exported_keys=sorted(j1['params'])))
+    if err is not None:
+        return
+    a, b = by['f'], by2['f']
+    probe = np.array([191.5e12, 193.0e12, 195.5e12])
+    if shape == 'per_frequency_loss':
+        la, lb = [float(x) for x in np.atleast_1d(a.loss_coef_func(probe))], [float(x) for x in np.atleast_1d(b.loss_coef_func(probe))]
+        ctx.prove('per_frequency_loss: reloaded fibre has the same loss coefficient over the spectrum (to the export rounding)',
+                  all(abs(x - y) <= 5.000001e-10 for x, y in zip(la, lb)), info=dict(before=la, after=lb))
+    else:
+        ctx.prove('lumped_losses: reloaded fibre has the same lumped losses', list(b.params.lumped_losses) == list(a.params.lumped_losses),
+                  info=dict(before=str(list(a.params.lumped_losses)), after=str(list(b.params.lumped_losses)), exported_keys=sorted(j1['params'])))
+
+
 def h_roadm_export(ctx, policy):
     """Roadm export -> reload -> export: node target of each policy, per-degree targets of all three kinds on different
     degrees (symbolic values, 0 dBm included), per-degree impairment choices and design bands: every setting comes back on
@@ -298,6 +334,9 @@ def jobs(tier):
     for nf in ((), ('gain',), ('delta_p',), ('tilt',), ('gain', 'delta_p', 'tilt')):
         js.append(dict(name=f'H17b:edfa_export_reload:none={"+".join(nf) or "-"}', fn='h_edfa_export', params=dict(none_fields=nf), cost=10))
     js.append(dict(name='H17b:fiber_export_reload', fn='h_fiber_export', cost=10))
+    for shape in ('per_frequency_loss', 'lumped_losses'):
+        js.append(dict(name=f'H17b:fiber_export_reload:{shape}', fn='h_fiber_export_special', params=dict(shape=shape), cost=10,
+                       continue_after_violation=True))
     js.append(dict(name='H17b:split_fibre_exports_operator_pmd_coef', module='harness.c08', fn='h_split',
                    params=dict(max_km=150, padding=10, fibre='operator_pmd_coef'), cost=30, witness_every=1))
     js.append(dict(name='H17b:raman_fiber_export_reload', fn='h_raman_fiber_export', cost=10))
